@@ -1,6 +1,9 @@
 """C12 — feed-forward layers compute their documented formulas; Linen == NNX."""
 from __future__ import annotations
 
+import json
+import os
+
 import numpy as np
 from hypothesis import strategies as st
 
@@ -19,10 +22,10 @@ ASSUMPTIONS = [
     'references are float64 NumPy direct sums / definitions written from the '
     'docstrings (harness/np_ref.py); layers run with dtype=param_dtype='
     'float64 under jax_enable_x64 and are compared with rtol=1e-9, atol=1e-10',
-    'rank-3 convolutions run without input dilation: the installed XLA '
-    'aborts the process for some of them (check failure in '
+    'input-dilated convolutions get inputs at least as large as the kernel: '
+    'the installed XLA aborts the process otherwise (check failure in '
     'conv_operand_swapper), an environment defect that would turn the check '
-    'into a harness error; excluded cases are counted',
+    'into a harness error; adjusted cases are counted',
     'input_dilation > 1 is combined only with VALID or explicit padding, and '
     'CIRCULAR/REFLECT only with stride 1 (the docstrings do not define window '
     'alignment otherwise)',
@@ -176,6 +179,9 @@ def conv_case():
         'padded/dilated float64 input; non-trivial = >=2 non-default hyper-'
         'parameters')
 def conv(case, ctx):
+  if os.environ.get('VERIF_TRACE'):
+    with open(os.environ['VERIF_TRACE'], 'a') as f_:
+      f_.write(json.dumps(case) + '\n')
   nd = case['nd']
   pad = case['padding']
   if pad == 'CAUSAL' and nd != 1:
@@ -198,13 +204,15 @@ def conv(case, ctx):
     spatial = [max(s, k) for s, k in zip(spatial, k_eff)]
   if pad in ('SAME', 'CAUSAL'):
     in_dil = [1] * nd
-  if nd == 3:
+  if any(d_ != 1 for d_ in in_dil):
     # the installed XLA aborts the process (check failure in
-    # conv_operand_swapper) for some rank-3 convolutions with input
-    # dilation: an environment defect outside flax, excluded by construction
-    if any(d_ != 1 for d_ in in_dil):
-      ctx.exclude('xla-abort-rank3-input-dilation')
-    in_dil = [1] * nd
+    # conv_operand_swapper) when an input-dilated convolution has a kernel
+    # larger than the undilated input: an environment defect outside flax,
+    # avoided by construction (inputs at least as large as the kernel)
+    k_eff_ = [(k - 1) * d + 1 for k, d in zip(case['kernel'], case['k_dil'])]
+    if any(s_ < k_ for s_, k_ in zip(spatial, k_eff_)):
+      ctx.exclude('xla-abort-input-dilation-kernel-larger-than-input')
+    spatial = [max(s_, k_) for s_, k_ in zip(spatial, k_eff_)]
   if pad == 'int':
     padding = case['pad_vals'][0][0]
   elif pad == 'pairs':
